@@ -229,11 +229,17 @@ impl Circuit<F> for FamCircuit {
         meta.enable_constant(constants);
         let instance: Vec<_> =
             (0..params.n_committed + params.n_plain).map(|_| meta.instance_column()).collect();
-        for c in adv0.iter().chain(adv1.iter()).chain(unblinded.iter()) {
-            meta.enable_equality(*c);
-        }
-        for c in instance.iter() {
-            meta.enable_equality(*c);
+        // `enable_equality` registers a query at the current rotation: when NextFirst is the
+        // first gate it is deferred until after the gates, so that the first advice query of
+        // the constraint system is the rotated one.
+        let equality_late = params.gates.first() == Some(&GateKind::NextFirst);
+        if !equality_late {
+            for c in adv0.iter().chain(adv1.iter()).chain(unblinded.iter()) {
+                meta.enable_equality(*c);
+            }
+            for c in instance.iter() {
+                meta.enable_equality(*c);
+            }
         }
         let t0 = meta.lookup_table_column();
         let t1 = meta.lookup_table_column();
@@ -320,6 +326,15 @@ impl Circuit<F> for FamCircuit {
                         Constraints::with_selector(s, vec![b0 - c * a0])
                     });
                 }
+            }
+        }
+
+        if equality_late {
+            for c in adv0.iter().chain(adv1.iter()).chain(unblinded.iter()) {
+                meta.enable_equality(*c);
+            }
+            for c in instance.iter() {
+                meta.enable_equality(*c);
             }
         }
 
